@@ -192,9 +192,9 @@ func gen(rng *rand.Rand, idx int) tcase {
 }
 
 type outcome struct {
-	st      *setec.Store
-	err     error
-	at      time.Duration
+	st       *setec.Store
+	err      error
+	at       time.Duration
 	panicked any
 }
 
